@@ -83,6 +83,88 @@ func matchBytes(m *of.Match) []byte {
 	return w.b
 }
 
+// unsupportedSwitchFrame: conformant switch messages that the library refuses as a whole (known
+// findings D49: a packet-in whose packet data is not a frame the packet decoder accepts; D50:
+// standard OpenFlow 1.3 elements the library has no codec for)
+func (g *G) unsupportedSwitchFrame(xid uint32) ([]byte, util.Message, string, string) {
+	w := &sw{}
+	pktin := func(match, data []byte) {
+		w.header(10, xid)
+		w.u32(uint32(g.r.Bits(32)))
+		w.u16(uint16(g.r.Bits(16)))
+		w.u8(uint8(g.r.Intn(3)))
+		w.u8(uint8(g.r.Bits(8)))
+		w.u64(g.r.Bits(64))
+		w.raw(match)
+		w.pad(2)
+		w.raw(data)
+	}
+	inPort := []byte{0, 1, 0, 12, 0x80, 0, 0, 4, 0, 0, 0, 7, 0, 0, 0, 0} // ofp_match: in_port 7
+	switch g.r.Intn(6) {
+	case 0: // packet data cut short by a small miss_send_len / max_len: fewer than 14 bytes
+		pktin(inPort, g.r.Bytes(1+g.r.Intn(13)))
+		return w.finish(), nil, "packet-in/short-data", "pktin-undecodable-payload"
+	case 1: // IPv6 with a hop-by-hop header holding a Pad1 option (RFC 8200 4.2: one zero byte, no length)
+		eth := append(g.r.Bytes(12), 0x86, 0xdd)
+		ip6 := []byte{0x60, 0, 0, 0, 0, 16, 0, 64}
+		ip6 = append(ip6, g.r.Bytes(32)...)
+		hbh := []byte{58, 0, 0, 1, 3, 0, 0, 0} // next header ICMPv6, Pad1, PadN(3)
+		icmp := []byte{128, 0, 0, 0, 0, 1, 0, 1}
+		pktin(inPort, append(append(append(eth, ip6...), hbh...), icmp...))
+		return w.finish(), nil, "packet-in/ipv6-pad1", "pktin-undecodable-payload"
+	case 2: // a match with a standard OXM field the library has no decoder for
+		f := [][]byte{{0x80, 0, 2, 4, 0, 0, 0, 3}, {0x80, 0, 14, 1, 5}, {0x80, 0, 18, 1, 1}}[g.r.Intn(3)] // in_phy_port, vlan_pcp, ip_ecn
+		m := append([]byte{0, 1, 0, 0, 0x80, 0, 0, 4, 0, 0, 0, 7}, f...)
+		binary.BigEndian.PutUint16(m[2:], uint16(len(m)))
+		for len(m)%8 != 0 {
+			m = append(m, 0)
+		}
+		e, _ := g.ethernet()
+		fb, _ := e.MarshalBinary()
+		pktin(m, fb)
+		return w.finish(), nil, "packet-in/oxm-without-codec", "of13-element-without-codec"
+	case 3: // OFPMP_PORT_DESC reply: the way an OpenFlow 1.3 switch describes its ports
+		w.header(19, xid)
+		w.u16(13)
+		w.u16(0)
+		w.pad(4)
+		for k := 1 + g.r.Intn(3); k > 0; k-- {
+			w.port(g.phyPort())
+		}
+		return w.finish(), nil, "multipart-reply/port-desc", "of13-element-without-codec"
+	default: // a flow-statistics record with a meter instruction, or with a set_nw_ttl / set_mpls_ttl action
+		w.header(19, xid)
+		w.u16(1)
+		w.u16(0)
+		w.pad(4)
+		var ins []byte
+		switch g.r.Intn(3) {
+		case 0:
+			ins = []byte{0, 6, 0, 8, 0, 0, 0, 9, 0, 1, 0, 8, 3, 0, 0, 0} // meter 9, goto-table 3
+		case 1:
+			ins = []byte{0, 4, 0, 32, 0, 0, 0, 0, 0, 23, 0, 8, 64, 0, 0, 0, 0, 0, 0, 16, 0, 0, 0, 1, 0xff, 0xff, 0, 0, 0, 0, 0, 0} // set_nw_ttl 64, output 1
+		default:
+			ins = []byte{0, 4, 0, 32, 0, 0, 0, 0, 0, 15, 0, 8, 64, 0, 0, 0, 0, 0, 0, 16, 0, 0, 0, 1, 0xff, 0xff, 0, 0, 0, 0, 0, 0} // set_mpls_ttl 64, output 1
+		}
+		w.u16(uint16(48 + 8 + len(ins)))
+		w.u8(uint8(g.r.Bits(8)))
+		w.pad(1)
+		w.u32(uint32(g.r.Bits(32)))
+		w.u32(uint32(g.r.Bits(32)))
+		w.u16(uint16(g.r.Bits(16)))
+		w.u16(uint16(g.r.Bits(16)))
+		w.u16(uint16(g.r.Bits(16)))
+		w.u16(0)
+		w.pad(4)
+		w.u64(g.r.Bits(64))
+		w.u64(g.r.Bits(64))
+		w.u64(g.r.Bits(64))
+		w.raw([]byte{0, 1, 0, 4, 0, 0, 0, 0})
+		w.raw(ins)
+		return w.finish(), nil, "multipart-reply/flow-stats-element-without-codec", "of13-element-without-codec"
+	}
+}
+
 // specSwitchFrame returns the bytes, the expected value, a kind and an optional finding signature
 func (g *G) specSwitchFrame() ([]byte, util.Message, string, string) {
 	g.swRecipe = ""
@@ -90,6 +172,9 @@ func (g *G) specSwitchFrame() ([]byte, util.Message, string, string) {
 	g.swXid = xid
 	hdr := func(ty uint8) common.Header { return common.Header{Version: 4, Type: ty, Xid: xid} }
 	w := &sw{}
+	if g.r.Intn(12) == 0 {
+		return g.unsupportedSwitchFrame(xid)
+	}
 	switch g.r.Intn(16) {
 	case 0: // hello: any list of elements - version bitmaps with 0..4 words, elements of other types (to be skipped)
 		w.header(0, xid)
@@ -453,6 +538,10 @@ func runC04(seed uint64, tier, dir, replay string) error {
 			known = 37
 		case "of13-port-table-queue-stats":
 			known = 13
+		case "pktin-undecodable-payload":
+			known = 49
+		case "of13-element-without-codec":
+			known = 50
 		}
 		term := fmt.Sprintf("(Sw %s %d %s %d %d %d)", packBytes(b), r.outcome, packBytes(r.re), max0(r.lenv), same, known)
 		if g.swRecipe != "" { // the value as a recipe: the general theorem's hypothesis and prediction are evaluated on it
@@ -461,6 +550,6 @@ func runC04(seed uint64, tier, dir, replay string) error {
 		}
 		o.Add(term, js, "sw:"+kind, fmt.Sprintf("%d/%d", len(b)/64, r.outcome))
 	}
-	o.Meta["rule"] = "spec-conformant switch messages written by an independent encoder (hello with bitmaps and unknown elements, error, experimenter error, echo with/without body, barrier reply, features reply with ports, get-config reply, packet-in with every match-field kind and Ethernet payloads of all kinds or none, flow-removed, port-status, multipart replies desc / aggregate / flow with instructions and actions / port statistics, tlv-table reply, bundle-control reply); the parsed message's canonical field dump is compared with the value the generator wrote; distinct by kind x size bucket x outcome"
+	o.Meta["rule"] = "spec-conformant switch messages written by an independent encoder (hello with bitmaps and unknown elements, error, experimenter error, echo with/without body, barrier reply, features reply with ports, get-config reply, packet-in with every match-field kind and Ethernet payloads of all kinds or none, flow-removed, port-status, multipart replies desc / aggregate / flow with instructions and actions / port statistics, tlv-table reply, bundle-control reply; and the conformant messages of the known findings: packet-ins whose packet data the packet decoder refuses, messages with standard 1.3 elements the library has no codec for); the parsed message's canonical field dump is compared with the value the generator wrote; distinct by kind x size bucket x outcome"
 	return o.Close()
 }
